@@ -20,4 +20,6 @@ pub mod ja;
 #[cfg(futures_buffered_verif)]
 pub mod mg;
 #[cfg(futures_buffered_verif)]
+pub mod wl;
+#[cfg(futures_buffered_verif)]
 pub mod harnesses;
